@@ -44,7 +44,7 @@ func c12(tier string) int {
 	cov := map[string]any{
 		"evaluations":         r.Pairs,
 		"distinct_nontrivial": r.Nontrivial,
-		"rule":                "pair = (subset of <= N original declarations from a 19-shape alphabet: functions (one whose only use of an import is its signature), value/pointer/generic-receiver methods, a method named init, a package init function, single and grouped types, generic type, single/multi-name/multi-value-from-one-call/valueless variables, single constants, iota groups with implicit repetition and with an iota-free spec in the middle; imports used by kept and by removable code, unsafe, a blank and a dot import) x (every overlay action - plain override, keep-original, purge on the declaration and on a spec inside a group (types, variables, constants), override-signature - on <= 2 of the declared names; sets of N declarations get <= top_actions) x layout (all originals in one file / one file per declaration) x (with/without a brand-new overlay symbol) x (normal / test build with an overlay _test.go file); every pair is merged by the REAL parseAndAugment: overlay sources served through natives.FS (hook natives.VerifSetFS), original sources through the package's build context (hook build.VerifParseAndAugment); the merged files are pretty-printed, re-parsed and type-checked and compared with a declaration-multiset model of doc/pargma.md (which side survives, how often, under which name and signature), values of untouched constants, relative order of untouched declarations, kept imports, file order and names (gopherjs__ prefix), .inc.js discovery; plus the sync->nosync import redirection for every listed and ten unlisted import paths x 3 import forms x overlay with/without an override; non-trivial = at least one overlay action",
+		"rule":                "pair = (subset of <= N original declarations from a 19-shape alphabet: functions (one whose only use of an import is its signature), value/pointer/generic-receiver methods, a method named init, a package init function, single and grouped types, generic type, single/multi-name/multi-value-from-one-call/valueless variables, single constants, iota groups with implicit repetition and with an iota-free spec in the middle; imports used by kept and by removable code, unsafe, a blank and a dot import) x (every overlay action - plain override, keep-original, purge on the declaration and on a spec inside a group (types, variables, constants), override-signature - on <= 2 of the declared names; sets of N declarations get <= top_actions) x layout (all originals in one file / one file per declaration) x (with/without a brand-new overlay symbol) x (normal / test build with an overlay _test.go file); every pair is merged by the REAL parseAndAugment: overlay sources served through natives.FS (hook natives.VerifSetFS), original sources through the package's build context (hook build.VerifParseAndAugment); the merged files are pretty-printed, re-parsed and type-checked and compared with a declaration-multiset model of doc/pargma.md (which side survives, how often, under which name and signature), values of untouched constants, relative order of untouched declarations, kept imports, number of files, .inc.js discovery; plus the sync->nosync import redirection for every listed and ten unlisted import paths x 3 import forms x overlay with/without an override; non-trivial = at least one overlay action",
 		"samples":             samples,
 		"max_original_decls":  maxOrig,
 		"max_overlay_actions": maxActs,
